@@ -5,6 +5,8 @@
 //!   `<id> c13 <period> <input-hex>`      LZ13CompressionFormat::compress  -> `ok <hex> rt=ok|bad alloc=ok|big`
 //!   `<id> d10|d13|f10|f13 <stream-hex>`  decompress (f* = through CompressionFormat) -> `ok <hex> x=ok|diff` | `err Invalid x=…` | `panic`
 //!   `<id> h10|h13|hf13 <stream-hex>`         as d10 / d13 / f13, output printed as `ok n=<len>,fnv=<FNV-1a 64>` (expansions >= 16 MiB)
+//!   `<id> e10|e13 <stream-hex>`               a (usually failing) decompress used as a *setup step* of a second-use sequence
+//!                                          (several lines with one id run back to back in one thread); printed like d10 / d13
 //!   `<id> t10|t13 <kind> <n> s<seed>`           C08 / C09 clauses on a generated input at the top of the domain (`gen_top`)
 //!   `<id> g10|g13 <kind> <r> <m> s<seed> <n>`  C10 bounds on a *generated* periodic input (sent as parameters, not
 //!                                        as hex; both sides rebuild it with the same splitmix64): see `gen_pattern`
@@ -146,6 +148,18 @@ impl Out {
     }
     fn top(&mut self, op: &str, kind: usize, n: usize, seed: u64) {
         self.lines.push(format!("lz.{:06} {} {} {} s{}", self.n, op, kind, n, seed));
+        self.n += 1;
+    }
+    /// A stateful case: several lines with one id, run back to back in the same process and thread.
+    /// Each step is `(op, period, bytes)`; `e*` / `d*` ops ignore the period.
+    fn seq(&mut self, steps: &[(&str, Vec<u8>)]) {
+        for (op, b) in steps {
+            if op.starts_with('c') || op.starts_with('b') {
+                self.lines.push(format!("lz.{:06} {} 0 {}", self.n, op, hex(b)));
+            } else {
+                self.lines.push(format!("lz.{:06} {} {}", self.n, op, hex(b)));
+            }
+        }
         self.n += 1;
     }
     fn dec(&mut self, op: &str, s: &[u8]) {
@@ -381,6 +395,121 @@ fn gen_cap_break(out: &mut Out, rng: &mut Rng, lz13: bool, thorough: bool) {
             let v = cap_break_resume(rng, 4096, b, j, k, variant, r);
             out.compress(0, &v);
         }
+    }
+}
+
+/// A stream the decoder rejects: `kind` 0 = truncated after at least one decoded token, 1 = back-reference before
+/// the start after some output, 2 = shorter than a header, 3 = truncated inside the last token of a long stream.
+fn bad_stream(rng: &mut Rng, kind: usize, lz13_wrapped: bool) -> Vec<u8> {
+    let ext = rng.chance(1, 2);
+    let ntoks = rng.range(12, 60) as usize;
+    let toks = gen_tokens(rng, ext, ntoks, false);
+    let n = expand(&toks).len();
+    let s = match kind {
+        0 => {
+            let full = encode(ext, n, &toks, 0);
+            let cut = rng.range(8, full.len() as u64 - 1) as usize;
+            full[0..cut].to_vec()
+        }
+        1 => {
+            let mut bad = toks.clone();
+            let at = rng.range(4, bad.len() as u64) as usize;
+            bad.truncate(at);
+            let have = expand(&bad).len();
+            bad.push(Tok::Ref(3, (have + 1 + rng.below(20) as usize).min(4096).max(have + 1)));
+            encode(ext, have + 3, &bad, 0)
+        }
+        2 => vec![if ext { 0x11 } else { 0x10 }, 5, 0][0..rng.range(0, 3) as usize].to_vec(),
+        _ => {
+            let full = encode(ext, n, &toks, 0);
+            full[0..full.len() - 1].to_vec()
+        }
+    };
+    if lz13_wrapped && s.len() >= 4 {
+        wrap13(rng, &s)
+    } else {
+        s
+    }
+}
+
+/// "Second use" sequences (same process, same thread, one case id): a failing decompress followed by an
+/// ordinary compress + round trip judged by the ordinary oracle; two failures then a round trip; long then
+/// short and short then long round trips.  Catches decoder / encoder state that survives a call.
+fn gen_second_use(out: &mut Out, rng: &mut Rng, cop: &'static str, thorough: bool) {
+    let is13 = cop.ends_with("13");
+    let eop = if is13 { "e13" } else { "e10" };
+    let reps = if thorough { 12 } else { 3 };
+    for _ in 0..reps {
+        for kind in 0..4 {
+            let (len, alpha, wrapped) = (rng.range(1, 1500) as usize, *rng.pick(&[2u64, 16, 256]), rng.chance(1, 2));
+            let x = lz_structured(rng, len, alpha);
+            let bad = bad_stream(rng, kind, is13 && wrapped);
+            out.seq(&[(eop, bad), (cop, x)]);
+        }
+        // two failures, then two round trips of different lengths
+        let b1 = bad_stream(rng, 0, is13);
+        let b2 = bad_stream(rng, 1, false);
+        let (ll, sl) = (rng.range(3000, 6000) as usize, rng.range(1, 20) as usize);
+        let long = lz_structured(rng, ll, 4);
+        let short = rng.bytes(sl);
+        out.seq(&[(eop, b1), (eop, b2), (cop, short.clone()), (cop, long.clone())]);
+        let b3 = bad_stream(rng, 3, false);
+        out.seq(&[(cop, long), (cop, short), (eop, b3), (cop, vec![7u8; 40])]);
+    }
+}
+
+/// Second-use sequences for the decoders alone: a rejected stream, then a conforming one (same id, same thread).
+fn gen_second_use_dec(out: &mut Out, rng: &mut Rng, thorough: bool) {
+    let reps = if thorough { 12 } else { 3 };
+    for _ in 0..reps {
+        for kind in 0..4 {
+            for op in ["d10", "d13"] {
+                let ext = rng.chance(1, 2);
+                let ntoks = rng.range(1, 60) as usize;
+                let toks = gen_tokens(rng, ext, ntoks, false);
+                let n = expand(&toks).len();
+                let good = encode(ext, n, &toks, rng.next() as u8);
+                let wrapped = op == "d13" && rng.chance(1, 2);
+                let bad = bad_stream(rng, kind, wrapped);
+                let good = if wrapped { wrap13(rng, &good) } else { good };
+                out.seq(&[(op, bad), (op, good.clone()), (op, good)]);
+            }
+        }
+    }
+}
+
+/// Lengths around multiples of 64 KiB with content that makes the 0x13 wrapper value (the in-place buffer size
+/// computed by calculate_lz13_header) and the input length differ in their third byte: a compressible run
+/// followed by an incompressible tail (wrapper = length + overhang, length = 65536 k - d) and the reverse
+/// (wrapper below the length, length = 65536 k + d).
+fn gen_header_straddle(out: &mut Out, rng: &mut Rng, thorough: bool) {
+    let mut plan: Vec<(usize, usize, bool)> = Vec::new(); // (k, d, reverse)
+    if thorough {
+        for k in 1..=4usize {
+            for d in 1..=64usize {
+                if k <= 2 || d % 8 == 1 {
+                    plan.push((k, d, false));
+                    if d % 4 == 1 {
+                        plan.push((k, d, true));
+                    }
+                }
+            }
+        }
+    } else {
+        plan.push((1, rng.range(1, 64) as usize, false));
+        plan.push((1, rng.range(1, 8) as usize, false));
+        plan.push((2, rng.range(1, 64) as usize, false));
+        plan.push((1, rng.range(1, 64) as usize, true));
+    }
+    for (k, d, reverse) in plan {
+        let n = if reverse { 65536 * k + d } else { 65536 * k - d };
+        let t = rng.range(900, 1600) as usize; // incompressible part: overhang ~ t/8 > 64
+        let q = rng.range(1, 9) as usize;
+        let pat = rng.bytes(q);
+        let run: Vec<u8> = (0..n - t).map(|i| pat[i % q]).collect();
+        let noise = rng.bytes(t);
+        let v: Vec<u8> = if reverse { [noise, run].concat() } else { [run, noise].concat() };
+        out.compress(0, &v);
     }
 }
 
@@ -843,14 +972,17 @@ pub fn gen_for(pid: Option<&str>, seed: u64, tier: &str) -> Vec<String> {
             gen_compress(&mut out, &mut rng, thorough, 6);
             gen_periodic(&mut out, &mut rng, thorough, true);
             gen_cap_break(&mut out, &mut rng, false, thorough);
+            gen_second_use(&mut out, &mut rng, "c10", thorough);
             gen_top_of_domain(&mut out, &mut rng, "t10", thorough);
         }
         Some("C09") => {
             out.ops = vec!["c13"];
-            out.shrink = 2;
+            out.shrink = 3;
             gen_compress(&mut out, &mut rng, thorough, 3);
             gen_periodic(&mut out, &mut rng, thorough, true);
             gen_cap_break(&mut out, &mut rng, true, thorough);
+            gen_second_use(&mut out, &mut rng, "c13", thorough);
+            gen_header_straddle(&mut out, &mut rng, thorough);
             gen_top_of_domain(&mut out, &mut rng, "t13", thorough);
         }
         Some("C10") => {
@@ -858,9 +990,15 @@ pub fn gen_for(pid: Option<&str>, seed: u64, tier: &str) -> Vec<String> {
             gen_compress(&mut out, &mut rng, thorough, 3);
             gen_periodic(&mut out, &mut rng, thorough, false);
             gen_overlap(&mut out, &mut rng, thorough);
+            gen_second_use(&mut out, &mut rng, "b10", false);
+            gen_second_use(&mut out, &mut rng, "b13", false);
+            let ops = std::mem::replace(&mut out.ops, vec!["b13"]);
+            gen_header_straddle(&mut out, &mut rng, false);
+            out.ops = ops;
         }
         Some("C11") => {
             gen_decode(&mut out, &mut rng, thorough, 6);
+            gen_second_use_dec(&mut out, &mut rng, thorough);
             gen_big(&mut out, &mut rng, thorough);
         }
         _ => {
@@ -962,12 +1100,12 @@ pub fn run_line(_st: &mut super::State, line: &str) -> String {
                 }
             }
         }
-        "d10" | "d13" | "f10" | "f13" | "h10" | "h13" | "hf13" => {
+        "d10" | "d13" | "f10" | "f13" | "h10" | "h13" | "hf13" | "e10" | "e13" => {
             let s = unhex(f[2]);
             let summ = f[1].starts_with('h');
             let r = no_panic(|| match f[1] {
-                "d10" | "h10" => (LZ10CompressionFormat {}).decompress(&s),
-                "d13" | "h13" => (LZ13CompressionFormat {}).decompress(&s),
+                "d10" | "h10" | "e10" => (LZ10CompressionFormat {}).decompress(&s),
+                "d13" | "h13" | "e13" => (LZ13CompressionFormat {}).decompress(&s),
                 "f10" => CompressionFormat::LZ10(LZ10CompressionFormat {}).decompress(&s),
                 _ => CompressionFormat::LZ13(LZ13CompressionFormat {}).decompress(&s),
             });
